@@ -42,6 +42,13 @@ def close(a, b, scale=1.0):
     return abs(a - b) <= 1e-9 * (1 + scale)
 
 
+def is_outcome(r, text):
+    """`r` (a result of run_real: an array, or the string 'error <Exc>') is exactly the outcome string `text`.
+    Never compare a result with `==` / `!=` directly: for an array that is an element-wise comparison whose truth value
+    raises, and an exception in the oracle code would hide the finding (a result where an error is demanded)."""
+    return isinstance(r, str) and r == text
+
+
 def as_date(t):
     """a python date for a datetime.date / datetime.datetime / np.datetime64 entry"""
     if isinstance(t, np.datetime64):
@@ -129,6 +136,118 @@ def real_spec(scope, loc, value):
     if loc == "global":
         return {k: float(v) for k, v in value.items()}
     return {k: [real_thr(loc, v)] for k, v in value.items()}  # the form from_quantile produces
+
+
+# ------------------------------------------------------------------ thresholds in every Python / numpy type the metric accepts
+# Quantifier covered: "for all ... configurations" of the clause "the instance array equals the defining comparison
+# (global or per-location thresholds; overall or per day/month/season)".  A configuration is what the USER writes:
+# the library documents `threshold_value = 295` and `{"Winter": 290, "Spring": 292, ...}` (Python ints), its validator
+# accepts int / float (np.float64 is a float) for global and np.ndarray / list for local thresholds, and from_quantile
+# produces np.float64 values under np.int64 / np.str_ keys.  `real_spec` above hands every threshold over as a Python
+# float (float64 array), so a code path that derives the dtype of the threshold column from ONE entry (the first time
+# step's int -> every other group's threshold truncated), keeps integer thresholds in an integer array, or narrows
+# them to float32 was never exercised.  `typed_spec` presents the SAME rational thresholds (the reference comparison
+# and the Lean model keep the exact Fractions) as: Python int where the value is integral ("int": wherever possible,
+# "int-some": for every second time group, so ints and floats mix inside one dict in either order), np.float64,
+# integer-dtype / float32 arrays, a (1, I, J) array instead of [array(I, J)], and optionally numpy scalar keys.
+THR_MODES = {"global": ["int", "int", "int", "int-some", "int-some", "npfloat", "float"],
+             "local": ["int", "int", "int-some", "f32", "bare1", "float"]}
+
+
+def typed_thr(rep, loc, v, code, wrap):
+    mode, salt = rep["mode"], rep.get("salt", 0)
+    as_int = mode == "int" or (mode == "int-some" and (code + salt) % 2 == 0)
+    if loc == "global":
+        v = Fraction(v)
+        if mode == "npfloat":
+            return np.float64(float(v))
+        return int(v) if (as_int and v.denominator == 1) else float(v)
+    a = np.array([[float(e) for e in row] for row in v])
+    if as_int and all(Fraction(e).denominator == 1 for row in v for e in row):
+        a = a.astype(np.int64 if salt == 0 else np.int32)
+    elif mode == "f32" and np.array_equal(a.astype(np.float32).astype(np.float64), a):  # only where float32 is exact
+        a = a.astype(np.float32)
+    if not wrap:
+        return a
+    return a[None] if mode == "bare1" else [a]
+
+
+def typed_spec(case, value):
+    """the thresholds `value` (Fractions, layout of gen_case) as the objects a user would write, per case['thr_repr']"""
+    rep, scope, loc = case["thr_repr"], case["scope"], case["loc"]
+    if scope == "overall":
+        return typed_thr(rep, loc, value, 0, False)
+
+    def key(k):
+        if not rep.get("np_keys"):
+            return k
+        return np.str_(k) if scope == "season" else np.int64(k)
+
+    return {key(k): typed_thr(rep, loc, v, case["code_of"](k), True) for k, v in value.items()}
+
+
+def typed_case(rng, tier):
+    """a well-formed case of gen_case whose thresholds are integers or non-integers (both signs) in a random mix,
+    presented in a random accepted type, and whose data lie on / within one unit of / beyond the threshold that applies
+    to each entry — so every entry is sensitive to a threshold that lost its fraction (trunc, floor, round) or moved"""
+    scoped = rng.random() < 0.75
+    case = gen_case(rng, tier)
+    while (case["expect_error"] or case["T"] > 80 or case["T"] * case["I"] * case["J"] > 120
+           or (case["scope"] != "overall") != scoped):
+        case = gen_case(rng, tier)
+    if rng.random() < 0.35 and case["loc"] == "local":  # global thresholds (the documented examples) more often
+        case["loc"] = "global"
+    I, J, loc = case["I"], case["J"], case["loc"]
+    fracs = [Fraction(1, 2), Fraction(1, 4), Fraction(3, 4), Fraction(1, 64), Fraction(63, 64), Fraction(33, 64), Fraction(31, 64)]
+
+    def scalar(integral):
+        n = Fraction(rng.randint(-3, 6))
+        return n if integral else n + rng.choice(fracs)
+
+    def one():
+        if loc == "global":
+            return scalar(rng.random() < 0.5)
+        whole = rng.random() < 0.5  # an array can only be of integer dtype if every entry is integral
+        return [[scalar(whole or rng.random() < 0.5) for _ in range(J)] for _ in range(I)]
+
+    def spec(old):
+        return one() if case["scope"] == "overall" else {k: one() for k in old}
+
+    def order2(a, b):
+        if loc == "global":
+            return (min(a, b), max(a, b))
+        lo = [[min(a[i][j], b[i][j]) for j in range(J)] for i in range(I)]
+        hi = [[max(a[i][j], b[i][j]) for j in range(J)] for i in range(I)]
+        return lo, hi
+
+    v0 = spec(case["v0"])
+    v1 = spec(case["v1"]) if case["v1"] is not None else None
+    if v1 is not None and rng.random() < 0.8:
+        if case["scope"] == "overall":
+            v0, v1 = order2(v0, v1)
+        else:
+            for k in list(v0):
+                if k in v1:
+                    v0[k], v1[k] = order2(v0[k], v1[k])
+    case["v0"], case["v1"] = v0, v1
+
+    def thr(v, t, i, j):
+        if case["scope"] != "overall":
+            v = v[case["keys_real"][t]]
+        return v if loc == "global" else v[i][j]
+
+    offs = [Fraction(0), Fraction(1, 64), Fraction(1, 4), Fraction(1, 2), Fraction(3, 4), Fraction(1), Fraction(65, 64), Fraction(2)]
+    vals = []
+    for t in range(case["T"]):
+        for i in range(I):
+            for j in range(J):
+                v = v0 if (v1 is None or rng.random() < 0.5) else v1
+                vals.append(thr(v, t, i, j) + rng.choice([-1, 1]) * rng.choice(offs))
+    case["vals"] = vals
+    case["x"] = np.array([float(v) for v in vals]).reshape(case["T"], I, J)
+    case["thr_repr"] = {"mode": rng.choice(THR_MODES[loc]), "salt": rng.randint(0, 1), "np_keys": rng.random() < 0.3}
+    case["style"] = "typed-" + case["thr_repr"]["mode"]
+    return case
 
 
 # ------------------------------------------------------------------ case generation
@@ -324,6 +443,8 @@ def describe(case, with_data=True):
     d = {k: case[k] for k in ("I", "J", "T", "tkind", "order", "time_kind", "style", "ty", "loc", "scope", "time_none", "expect_error", "minlen")}
     if case.get("nonfinite"):
         d["nonfinite"] = case["nonfinite"]
+    if case.get("thr_repr"):
+        d["thr_repr"] = dict(case["thr_repr"])
     d["time_first"] = str(case["time"][0])
     if case.get("big"):
         d["big"], d["data_seed"] = case["big"], case["data_seed"]
@@ -338,9 +459,14 @@ def describe(case, with_data=True):
 def make_metric(case):
     from ibicus.evaluate.metrics import AccumulativeThresholdMetric
 
-    tv = real_spec(case["scope"], case["loc"], case["v0"])
-    if case["v1"] is not None:
-        tv = [tv, real_spec(case["scope"], case["loc"], case["v1"])]
+    if case.get("thr_repr"):  # thresholds as ints / np.float64 / integer or float32 arrays / numpy keys (typed_spec)
+        tv = typed_spec(case, case["v0"])
+        if case["v1"] is not None:
+            tv = [tv, typed_spec(case, case["v1"])]
+    else:
+        tv = real_spec(case["scope"], case["loc"], case["v0"])
+        if case["v1"] is not None:
+            tv = [tv, real_spec(case["scope"], case["loc"], case["v1"])]
     with warnings.catch_warnings():
         warnings.simplefilter("ignore")
         return AccumulativeThresholdMetric(threshold_value=tv, threshold_type=case["ty"], threshold_scope=case["scope"],
@@ -420,7 +546,10 @@ def run_real(case, m):
     call("annualv", lambda: m.calculate_annual_value_beyond_threshold(x, tma))
     call("intensity", lambda: m.calculate_intensity_index(x, tm))
     if isinstance(out["inst"], np.ndarray):
-        out["labels"], out["nlabels"] = label(out["inst"])
+        try:
+            out["labels"], out["nlabels"] = label(out["inst"])
+        except Exception:  # noqa: BLE001  (an instance array scipy cannot label: the oracle reports it as malformed)
+            pass
     return out, problems
 
 
@@ -588,7 +717,7 @@ def compare(case, out, got, res):
     if got.startswith("error "):
         names = [n for n in ["inst", "filt", "prob", "annual", "spells", "extent", "clusters", "pct", "annualv", "intensity"]]
         real = {n: out[n] for n in names}
-        wrong = {n: (r if isinstance(r, str) else "returned") for n, r in real.items() if r != got}
+        wrong = {n: (r if isinstance(r, str) else "returned") for n, r in real.items() if not is_outcome(r, got)}
         if wrong:
             mism.append(f"model: {got}; real: {wrong}")
         return mism
@@ -960,7 +1089,9 @@ def run(tier, res, force_search=False):
         "(3) day-of-year / month / year of a time stamp in each encoding (datetime64 units, datetime, types without timetuple) — library calendar code, compared with "
         "Python's datetime on every axis; only the season rule is modelled (seasonOfMonth, tied by the driver op `season`); "
         "(4) sums and quotients of non-finite floats (IEEE): the model carries only 'NaN compares False' and 'np.where selects' (XVal, condX, filtG; tied by the driver op `xfilt`); "
-        "(5) float rounding of ratios and of (n-1)*q at an integer",
+        "(5) float rounding of ratios and of (n-1)*q at an integer; "
+        "(6) the Python / numpy type a threshold is written in (int, float, np.float64, integer-dtype / float32 arrays, numpy scalar keys, ints and floats mixed in one dict): "
+        "the model has one number type (Rat), so 'the comparison uses the value as written' is decided by the oracle on typed cases (typed_case), which are also sent to the driver",
         "stateful use of one metric object is specified by the cache-free state machine Model.Metrics.runOps (theorem sequence_eval_current), tied by the driver op `seq` on the same "
         "sequences the oracle judges; storage-order theorems are about Model.Metrics.reindex, tied by the driver op `allperm`",
         "dataset_unchanged: numpy aliasing is not modelled; the store model's flag (fresh result buffer) is observed with np.shares_memory and a byte comparison of the caller's array around every public method",
@@ -1006,7 +1137,7 @@ def run(tier, res, force_search=False):
             for name, r in out.items():
                 if name in ("alias", "labels", "nlabels"):
                     continue
-                if r != "error ValueError":
+                if not is_outcome(r, "error ValueError"):
                     problems_all.append(("instances_error", f"{name}: expected ValueError ({case['expect_error']}), got {r if isinstance(r, str) else 'a result'}",
                                          desc, size))
         res.count((case["ty"], case["loc"], case["scope"], case["I"], case["J"], case["tkind"], nyears, case["style"], outcome),
@@ -1246,6 +1377,40 @@ def run(tier, res, force_search=False):
         res.count(("fromq-scaled", qc.get("scaled"), qc["ty"], qc["loc"], qc["scope"]), True)
     res.extra["scaled_quantile_cases"] = n_qs
 
+    # ---- thresholds written as Python ints / np.float64 / integer-dtype or float32 arrays / under numpy keys, ints and
+    #      floats mixed inside one dict (own PRNG stream): covers "for all configurations" (threshold values of every
+    #      accepted type, global or per-location, overall or per day / month / season) of the clause "the instance array
+    #      equals the defining comparison" and of everything derived from it
+    rng_typed = random.Random(C.seed() * 104729 + 191919)
+    n_typed = 80 if tier == "quick" else 600
+    if force_search or not lean_ok:
+        n_typed *= 3
+    for k in range(n_typed):
+        case = typed_case(rng_typed, tier)
+        desc = describe(case)
+        size = case["T"] * case["I"] * case["J"]
+        note = f" (thresholds written as {case['thr_repr']['mode']}{', numpy keys' if case['thr_repr']['np_keys'] else ''})"
+        try:
+            m = make_metric(case)
+        except Exception as e:  # noqa: BLE001
+            problems_all.append(("constructor-raises", f"the constructor raised {type(e).__name__} on thresholds of an accepted type: {str(e)[:100]}" + note, desc, size))
+            continue
+        out, probs = run_real(case, m)
+        for kd, p in probs:
+            problems_all.append((kd, p + note, desc, size))
+        for kd, b in oracle(case, out):
+            problems_all.append((kd, b + note, desc, size))
+        inst = out["inst"]
+        res.count(("typed", case["thr_repr"]["mode"], case["thr_repr"]["np_keys"], case["ty"], case["loc"], case["scope"]),
+                  isinstance(inst, np.ndarray) and 0 < int(inst.sum()) < inst.size,
+                  sample={**describe(case, with_data=False), "instances": int(inst.sum()) if isinstance(inst, np.ndarray) else inst})
+        ln = safe_line(case, out)
+        if ln is not None:
+            lines.append(ln)
+            expect.append(("all", case, out))
+            res.extra["typed_lines"] = res.extra.get("typed_lines", 0) + 1
+    res.extra["typed_threshold_cases"] = n_typed
+
     # ---- quantile-defined metrics
     for k in range(n_q):
         qc = gen_qcase(rng, tier)
@@ -1421,8 +1586,12 @@ def replay(data):
                 scope=scope, v0=dec(parts[0]), v1=dec(parts[1]) if len(parts) > 1 else None, codes=codes, keys_real=keys_real,
                 code_of=(lambda k: SEASON_CODE[k]) if scope == "season" else (lambda k: int(k)), time_none=fi["time_none"],
                 expect_error=fi["expect_error"], minlen=fi["minlen"], tkind=fi["tkind"], order=fi["order"], style=fi["style"],
-                inexact=str(fi.get("style", "")).startswith("near"))
-    m = make_metric(case)
+                inexact=str(fi.get("style", "")).startswith("near"), thr_repr=fi.get("thr_repr"))
+    try:
+        m = make_metric(case)
+    except Exception as e:  # noqa: BLE001
+        print(f"  still failing: the constructor raised {type(e).__name__}: {str(e)[:100]}")
+        return 1
     if fi.get("sequence_on_one_metric_object"):
         # the failure was observed on a metric object / buffers that had been used before: evaluate once on other
         # content and with the opposite type, then put the recorded state into the same objects
@@ -1439,7 +1608,7 @@ def replay(data):
         bad += [b for _, b in oracle(case, out)]
     else:
         bad += [f"{n}: {r if isinstance(r, str) else 'a result'}" for n, r in out.items()
-                if n not in ("alias", "labels", "nlabels") and r != "error ValueError"]
+                if n not in ("alias", "labels", "nlabels") and not is_outcome(r, "error ValueError")]
     for b in bad:
         print("  still failing:", b)
     if not bad:
